@@ -357,4 +357,47 @@ def run(tier: str = "quick", seed: int = 0) -> Dict[str, Any]:
     bound = (f"tier {tier}: {cfg['main']} trees + {cfg['leading']} (leading>=2) + {cfg['ratio0']} (ratio=0) of nesting depth <= "
              f"{cfg['depth']}, {cfg['texts']} texts; contents: ASCII words, CJK/emoji/fullwidth, combining and zero-width code points, "
              "embedded newlines, blank-only texts, no tabs; available widths 0..200")
-    return _aggregate(parts, _minimise, lambda f: input_class(f["desc"], f["pool"]), tier, cfg, t0, rule, bound)
+    res = _aggregate(parts, _minimise, lambda f: input_class(f["desc"], f["pool"]), tier, cfg, t0, rule, bound)
+    _min_width_family(res, tier)
+    return res
+
+
+def _min_width_family(res: Dict[str, Any], tier: str) -> None:
+    """Directed family (added by the maintainer of /verif): tables with `min_width` at available widths on both
+    sides of it.  The measurement must stay a sound bound: 0 <= min <= max <= W and rendering at the
+    reported maximum must not produce a wider line."""
+    import io
+
+    from rich import box as rbox
+    from rich.console import Console
+    from rich.measure import Measurement
+    from rich.table import Table
+
+    cells = T.specnative.cells
+    n = bad = 0
+    widths = list(range(1, 45)) + [60, 61, 80, 120, 200]
+    for mw in (10, 24, 60):
+        for expand in (False, True):
+            for show_edge in (True, False):
+                for W in widths:
+                    def mk():
+                        t = Table("Name", "Description", min_width=mw, expand=expand, show_edge=show_edge, box=rbox.ASCII)
+                        t.add_row("a", "some words here")
+                        return t
+                    console = Console(width=W, file=io.StringIO(), color_system=None, legacy_windows=False, _environ={})
+                    m = Measurement.get(console, mk(), W)
+                    n += 1
+                    res["clauses"]["c09.min_width_table"] = res["clauses"].get("c09.min_width_table", 0) + 1
+                    ok = 0 <= m.minimum <= m.maximum <= W
+                    widest = None
+                    if ok and m.maximum >= 7:  # structural minimum of this two-column table: 3 borders + 2*(2 padding + 1)... kept generous
+                        opts = console.options.update(width=m.maximum)
+                        text = "".join(seg.text for seg in console.render(mk(), opts) if not seg.is_control)
+                        widest = max([cells(line) for line in text.split("\n")] + [0])
+                        ok = widest <= m.maximum
+                    if not ok and bad < 3:
+                        bad += 1
+                        res["failures"].append({"check": "c09.min_width_table", "what": f"Table(min_width={mw}, expand={expand}, show_edge={show_edge}) at available width {W}: measured ({m.minimum}, {m.maximum}), widest line when rendered at the maximum: {widest}",
+                                                "input_key": f"min_width={mw}|expand={expand}|edge={show_edge}|W={W}", "input": {"min_width": mw, "expand": expand, "show_edge": show_edge, "W": W},
+                                                "expected": "0 <= minimum <= maximum <= W and no rendered line wider than the maximum", "observed": {"measurement": [m.minimum, m.maximum], "widest_line": widest}})
+    res["evaluations"] += n
